@@ -6,6 +6,7 @@ import Got.Lemmas.SortInsertion
 import Got.Lemmas.SortHeap
 import Got.Lemmas.SortPivot
 import Got.Lemmas.SortQuick
+import Got.Lemmas.SortCostQuick
 /- property theorems of C15 (only theorems + non-vacuity examples live here) -/
 open Got.Model.Sort Got.Model.SortUnique
 open Got.Lemmas.Sort (StrictWeak)
@@ -189,7 +190,7 @@ theorem C15_sorted_int {V : Type} (keys : Array Int) (vals : Array V) :
     `n+1 ≤ 2^k`); every partition step — loop iteration or nested call — consumes one unit, so the longest chain of
     partition steps (`quickSortLevels`, an instrumented copy computing the same state) is at most `2·⌈lg(n+1)⌉`;
     heapSort_func is entered exactly when the budget is 0 on a range of more than 12 elements.
-    The O(n log n) bound on the NUMBER of comparisons is not proved here (monitored by the check's oracle). -/
+    The O(n log n) bound on the NUMBER of comparisons is `C15_comparisons` below. -/
 theorem C15_depth {K V : Type} (less : LessFn K V) (keys : Array K) (vals : Array V) :
     let n := min keys.size vals.size
     let s0 : St K V := ⟨keys, vals, []⟩
@@ -210,3 +211,40 @@ theorem C15_depth {K V : Type} (less : LessFn K V) (keys : Array K) (vals : Arra
 theorem C15_depth_heapSort_at_zero {K V : Type} (less : LessFn K V) (a b : Nat) (s : St K V)
     (h : b - a > thrInsertion) : quickSort less a b 0 s = heapSort less a b s := by
   rw [quickSort, if_pos h]
+
+/-! ## number of comparisons -/
+
+/-- For EVERY less function (any function of contents, call history and indices — also inconsistent ones), the
+    number of `less` calls made by `SliceBy(keys, values, less)` is at most `n·(9·L + 7) ≤ 9·n·(L + 1)` with
+    `n = min(len keys, len values)` and `L = ⌈lg(n+1)⌉` (the least `L` with `n+1 ≤ 2^L`).
+    Accounting (all per-function bounds are read off the model's log and hold for arbitrary less, because every
+    loop of the Go code is bounded by its indices): one doPivot_func on `m` elements ≤ `2m + 18 ≤ 3m` (pivot choice
+    ≤ 12, first scan + partition loop ≤ m, duplicate probes ≤ 3, protect loop ≤ m); at most `2L` partition levels
+    over disjoint ranges; heapSort_func on `m` elements ≤ `(3m+2)·⌈lg(m+1)⌉ ≤ 3mL + 2m`; the tail on `m ≤ 12`
+    elements ≤ `m(m-1)/2 + m ≤ 7m`.  (The check's oracle monitors the sharper `4·n·(lg n + 2)` for consistent
+    orders; worst observed `3.36·n·(lg n + 2)`.) -/
+theorem C15_comparisons {K V : Type} (less : LessFn K V) (keys : Array K) (vals : Array V) :
+    let n := min keys.size vals.size
+    ∃ L, n + 1 ≤ 2 ^ L ∧ (∀ k', n + 1 ≤ 2 ^ k' → L ≤ k') ∧
+      lessCount (sliceBy less keys vals).log ≤ n * (9 * L + 7) ∧
+      lessCount (sliceBy less keys vals).log ≤ 9 * n * (L + 1) := by
+  intro n
+  obtain ⟨L, h1, h2, h3⟩ := Got.Lemmas.Sort.sliceBy_cost less keys vals
+  refine ⟨L, h1, h2, h3, Nat.le_trans h3 ?_⟩
+  have e : 9 * n * (L + 1) = n * (9 * L + 9) := by
+    rw [Nat.mul_comm 9 n, Nat.mul_assoc, Nat.mul_add 9 L 1]
+  rw [e]
+  exact Nat.mul_le_mul_left _ (by omega)
+
+/-- per-function cost bounds used above, for any less: doPivot_func on a range of `m ≥ 3` elements makes at most
+    `2m + 3 + 12` Less calls, heapSort_func on `m < 2^k` elements at most `(3m+2)·k`. -/
+theorem C15_comparisons_doPivot_heapSort {K V : Type} (less : LessFn K V) (a b k : Nat) (s : St K V) :
+    (a + 3 ≤ b → lessCount (doPivot less a b s).2.2.log ≤ lessCount s.log + 2 * (b - a) + 15) ∧
+    (b - a < 2 ^ k → lessCount (heapSort less a b s).log ≤ lessCount s.log + (3 * (b - a) + 2) * k) := by
+  constructor
+  · intro h
+    have := (Got.Lemmas.Sort.doPivot_cost less a b s h).1
+    unfold Got.Lemmas.Sort.cnt at this
+    split at this <;> omega
+  · intro h
+    exact Got.Lemmas.Sort.heapSort_cost less a b k s h
